@@ -1,0 +1,47 @@
+//go:build verif
+
+package server
+
+import (
+	"github.com/openconfig/gribigo/rib"
+
+	spb "github.com/openconfig/gribi/v1/proto/service"
+)
+
+// This file is only compiled with the "verif" build tag. It adds read-only
+// observation points for the verification harness in /verif; it changes no
+// existing behaviour.
+
+// VerifRIB returns the server's RIB.
+func (s *Server) VerifRIB() *rib.RIB { return s.masterRIB }
+
+// VerifElection returns a copy of the highest election ID learnt and the
+// internal identifier of the session that is the current primary.
+func (s *Server) VerifElection() (*spb.Uint128, string) {
+	s.elecMu.RLock()
+	defer s.elecMu.RUnlock()
+	var id *spb.Uint128
+	if s.curElecID != nil {
+		id = &spb.Uint128{High: s.curElecID.High, Low: s.curElecID.Low}
+	}
+	return id, s.curMaster
+}
+
+// VerifSessions returns the number of Modify sessions the server keeps state for.
+func (s *Server) VerifSessions() int {
+	s.csMu.RLock()
+	defer s.csMu.RUnlock()
+	return len(s.cs)
+}
+
+// VerifSessionIDs returns the internal identifiers of the Modify sessions the
+// server keeps state for.
+func (s *Server) VerifSessionIDs() []string {
+	s.csMu.RLock()
+	defer s.csMu.RUnlock()
+	ids := make([]string, 0, len(s.cs))
+	for id := range s.cs {
+		ids = append(ids, id)
+	}
+	return ids
+}
